@@ -107,7 +107,7 @@ pub proof fn lemma_decbin_nearest(val: int, nbits: int, d: int, b: int, fives: i
                let n = val * p2(nbits); let m = fives * p2(d); let pn = p2(nbits);
                let div = numer1 / denom; let tie = numer1 % denom == 0 && shifted % k == 0;
                &&& (numer1 / pn >= denom) ==> (if nbits == 0 && val == fives * p2(d - 1) { rne_div(n, m) == 0 } else { rne_div(n, m) >= pn })
-               &&& !(numer1 / pn >= denom) ==> (if tie && div % 2 == 1 { div - 1 } else { div }) == rne_div(n, m) && 0 <= rne_div(n, m) < pn && (tie ==> div >= 1) && div >= 0 })
+               &&& !(numer1 / pn >= denom) ==> (if tie && div % 2 == 1 { div - 1 } else { div }) == rne_div(n, m) && 0 <= rne_div(n, m) < pn && (tie ==> div >= 1) && 0 <= div < pn })
 {
     let shifted = val * p2(b - d + 1); let k = p2(b - nbits); let numer0 = shifted / k; let numer1 = numer0 + fives; let denom = 2 * fives;
     let n = val * p2(nbits); let m = fives * p2(d); let pn = p2(nbits); let h = p2(d - 1); let hh = fives * h;
